@@ -48,6 +48,7 @@ DITypes == {10, 12}
 TO2Types == {60, 62, 64, 66, 68, 70}
 NoCut == [kind |-> "none", t |-> 0]
 StoreFail(t) == [kind |-> "storefail", t |-> t]
+DelFail == [kind |-> "delfail", t |-> 70]     \* the first DELETE on the voucher table is refused (once)
 NoBlob == [owner |-> <<"none", 0>>]
 NoV == [guid |-> 0]
 RvLive == cred # NoCred /\ \E r \in rv : r.guid = cred.guid /\ r.live
@@ -58,7 +59,7 @@ HasAgreeing(store) == \E v \in store : Agrees(v, cred)
 (* persists a voucher is processed (DI.SetHMAC 12, TO2.Done 70): the message is answered with *)
 (* an error and nothing may have changed.                                                     *)
 ProcessedByServer(cut, t) ==    \* did the server process the message of type t of the run?
-    cut = NoCut \/ cut.t > t \/ (cut.t = t /\ cut.kind \notin {"reqlost", "storefail"})
+    cut = NoCut \/ cut.t > t \/ (cut.t = t /\ cut.kind \notin {"reqlost", "storefail", "delfail"})
 SeenByDevice(cut, t) == cut = NoCut \/ cut.t > t   \* did the device get the honest answer to t?
 
 Init ==
@@ -106,14 +107,14 @@ Servable(v) == v.guid = cred.guid /\ v.ents >= 1 /\ v.owner = OwnerName(ownerKey
 TO2(reuse, cut, useblob) ==
     /\ cred # NoCred
     /\ useblob => blob # NoBlob
-    /\ cut = NoCut \/ (cut.kind \in CutKinds /\ cut.t \in TO2Types /\ cuts < MaxCuts) \/ (cut = StoreFail(70) /\ cuts < MaxCuts)
+    /\ cut = NoCut \/ (cut.kind \in CutKinds /\ cut.t \in TO2Types /\ cuts < MaxCuts) \/ (cut \in {StoreFail(70), DelFail} /\ cuts < MaxCuts)
     /\ cuts' = IF cut = NoCut THEN cuts ELSE cuts + 1
     /\ IF \E v \in ownerStore : Servable(v)
        THEN LET v == CHOOSE w \in ownerStore : Servable(w)
                 g == nextGuid
                 blobOK == ~useblob \/ blob.owner = v.owner
                 \* with credential reuse nothing is inserted, so a store that refuses inserts is not noticed
-                ecut == IF cut = StoreFail(70) /\ reuse THEN NoCut ELSE cut
+                ecut == IF cut \in {StoreFail(70), DelFail} /\ reuse THEN NoCut ELSE cut
                 ownerDone == blobOK /\ ProcessedByServer(ecut, 70)    \* the owner accepted Done
                 devDone == blobOK /\ SeenByDevice(ecut, 70)           \* the device saw Done2
                 nv == [guid |-> g, mkey |-> OwnerName(ownerKey), macOK |-> TRUE, ents |-> 0, owner |-> OwnerName(ownerKey)]
@@ -197,7 +198,7 @@ Persist ==
     /\ UNCHANGED <<cred, mfgStore, ownerStore, ownerKey, nextGuid, cuts, aio, rv, blob, held>>
 
 Cuts(types) == {NoCut} \cup {[kind |-> k, t |-> t] : k \in CutKinds, t \in types}
-                \cup {StoreFail(t) : t \in types \cap {12, 70}}
+                \cup {StoreFail(t) : t \in types \cap {12, 70}} \cup (IF 70 \in types THEN {DelFail} ELSE {})
 
 Next ==
     /\ steps < MaxSteps
